@@ -75,4 +75,164 @@ Proof.
     { unfold zlen. cbn [length]. apply Z.eqb_neq. lia. }
     rewrite L. cbn [py_first tl]. rewrite (fold_pieces (i1 :: ir) [first]). cbn [concat]. rewrite app_nil_r. reflexivity.
 Qed.
+(* ---- parse_qsl ------------------------------------------------------------------------------- *)
+Lemma fold_filter_map {A B} (keep : A -> bool) (g : A -> B) l : forall acc,
+  fold_left (fun ret x => if negb (keep x) then ret else ret ++ [g x]) l acc = acc ++ map g (filter keep l).
+Proof.
+  induction l as [|x r IH]; intro acc; cbn [fold_left filter map]; [rewrite app_nil_r; reflexivity|].
+  destruct (keep x); cbn [negb map]; rewrite IH; [rewrite <- app_assoc; reflexivity|reflexivity].
+Qed.
+
+Lemma nonempty_match (p : text) : nonempty p = match p with [] => false | _ => true end.
+Proof. destruct p; reflexivity. Qed.
+
+Lemma fold_left_ext2 {A B} (f g : A -> B -> A) l : (forall a x, f a x = g a x) -> forall a, fold_left f l a = fold_left g l a.
+Proof. intro H. induction l as [|x r IH]; intro a; cbn [fold_left]; [reflexivity|]. rewrite H. apply IH. Qed.
+
+Theorem src_parse_qsl_eq qs : src_parse_qsl T qs = parse_qsl T qs.
+Proof.
+  unfold src_parse_qsl, parse_qsl. cbv zeta.
+  assert (P : flat_map (fun s1 => map (fun s2 => s2) (split_on 59 s1)) (split_on 38 qs)
+              = flat_map (split_on 59) (split_on 38 qs)).
+  { apply flat_map_ext. intro a. apply map_id. }
+  rewrite P.
+  rewrite (fold_left_ext2 _ (fun ret x => if negb (nonempty x) then ret else ret ++ [qsl_pair T x])).
+  - rewrite (fold_filter_map nonempty (qsl_pair T)). cbn [app]. reflexivity.
+  - intros ret pair. destruct (negb (nonempty pair)); [reflexivity|]. f_equal. f_equal.
+    unfold qsl_pair, py_partition3. destruct (partition 61 pair) as [[key sep] value].
+    destruct value as [|v0 vr]; destruct sep; reflexivity.
+Qed.
+
+(* ---- QueryParamDict.to_text --------------------------------------------------------------------- *)
+Lemma fold_append_map {A B} (g : A -> B) l : forall acc,
+  fold_left (fun ret x => ret ++ [g x]) l acc = acc ++ map g l.
+Proof.
+  induction l as [|x r IH]; intro acc; cbn [fold_left map]; [rewrite app_nil_r; reflexivity|].
+  rewrite IH, <- app_assoc. reflexivity.
+Qed.
+
+Theorem src_query_to_text_eq q full : src_query_to_text T O q full = query_to_text T O full q.
+Proof.
+  unfold src_query_to_text, query_to_text. cbv zeta.
+  rewrite (fold_left_ext2 _ (fun ret x => ret ++ [(fun '(k, v) =>
+             match v with
+             | None => quote T O full CQuery k
+             | Some v => quote T O full CQuery k ++ [61] ++ quote T O full CQuery v
+             end) x])).
+  - rewrite fold_append_map. reflexivity.
+  - intros ret [k [v|]]; cbn [opt_is_none opt_text]; rewrite !src_quote_query_part_eq; reflexivity.
+Qed.
+(* ---- parse_url: userinfo, sep, hostinfo = au_text.rpartition('@') ... -------------------------------- *)
+Theorem src_split_userinfo_eq au : src_split_userinfo au = split_userinfo au.
+Proof.
+  unfold src_split_userinfo, split_userinfo, py_rpartition3, py_partition3. cbv zeta.
+  destruct au as [|a0 ar]; [reflexivity|]. cbn [nonempty].
+  destruct (rpartition 64 (a0 :: ar)) as [[ui hi]|]; [|reflexivity].
+  cbn [nonempty]. destruct (partition 58 ui) as [[u f] p]. reflexivity.
+Qed.
+
+(* ... host, sep, port_str = hostinfo.partition(':'), bracket repair, int(port_str) *)
+Theorem src_split_hostport_eq hi :
+  (let '(h, p) := src_split_hostport O hi in do p' <- p; MOk (h, p')) = split_hostport O hi.
+Proof.
+  unfold src_split_hostport, split_hostport, py_partition3. cbv zeta.
+  destruct hi as [|c0 cr]; [reflexivity|]. cbn [nonempty].
+  destruct (partition 58 (c0 :: cr)) as [[host sep] port_str].
+  destruct sep; [|reflexivity]. cbn [nonempty].
+  assert (H0 : (nonempty host && (py_char0 host =? 91)) = match host with h0 :: _ => h0 =? 91 | [] => false end)
+    by (destruct host; reflexivity).
+  rewrite H0. destruct (match host with h0 :: _ => h0 =? 91 | [] => false end && memN 93 port_str).
+  - destruct (partition 93 port_str) as [[hr f] ps]. rewrite <- !app_assoc.
+    assert (P : (if nonempty ps && (py_char0 ps =? 58) then tl ps else ps) = match ps with 58 :: r => r | _ => ps end).
+    { destruct ps as [|q qr]; [reflexivity|]. cbn [nonempty py_char0 andb tl].
+      destruct (q =? 58) eqn:E; [apply N.eqb_eq in E; subst q; reflexivity|].
+      destruct q as [|pq]; [reflexivity|]. repeat (destruct pq as [pq|pq|]; try reflexivity; try discriminate). }
+    rewrite P. reflexivity.
+  - reflexivity.
+Qed.
+(* ---- URL.get_authority(full_quote, with_userinfo=True) ------------------------------------------------- *)
+Variable enc : text -> text.       (* the idna codec on the host, where it answers *)
+
+Lemma concat2 (a b : text) : concat [a; b] = a ++ b.
+Proof. cbn. rewrite app_nil_r. reflexivity. Qed.
+
+Ltac finish_parts :=
+  cbv zeta; cbn [nonempty orb andb negb app concat mbind oz_truthy oz_get];
+  rewrite ?app_nil_r, <- ?app_assoc; cbn [app]; rewrite ?app_nil_r, <- ?app_assoc; reflexivity.
+
+Theorem src_get_authority_eq u full :
+  o_idna_enc O (u_host u) = MOk (enc (u_host u)) ->
+  get_authority T O full u = MOk (src_get_authority T O enc u full).
+Proof.
+  intro ENC. unfold src_get_authority, get_authority, port_text.
+  rewrite !src_quote_userinfo_part_eq. unfold quote.
+  destruct u as [scheme sep user pw fam host port path q frag].
+  cbn [u_user u_pass u_host u_family u_port] in *.
+  set (dp := default_port T _).
+  destruct host as [|h0 hr].
+  { destruct user as [|u0 ur]; destruct pw as [|p0 pr]; finish_parts. }
+  destruct ((fam =? 6) || memN 58 (h0 :: hr)) eqn:B.
+  - destruct user as [|u0 ur]; destruct pw as [|p0 pr]; destruct port as [p|];
+      try destruct (negb (p =? 0)%Z && negb (optZ_eqb (Some p) dp)) eqn:C;
+      cbv zeta; cbn [nonempty orb andb negb oz_truthy oz_get]; rewrite ?B, ?C; finish_parts.
+  - destruct full.
+    + rewrite ENC.
+      destruct user as [|u0 ur]; destruct pw as [|p0 pr]; destruct port as [p|];
+        try destruct (negb (p =? 0)%Z && negb (optZ_eqb (Some p) dp)) eqn:C;
+        cbv zeta; cbn [nonempty orb andb negb oz_truthy oz_get]; rewrite ?B, ?C; finish_parts.
+    + destruct user as [|u0 ur]; destruct pw as [|p0 pr]; destruct port as [p|];
+        try destruct (negb (p =? 0)%Z && negb (optZ_eqb (Some p) dp)) eqn:C;
+        cbv zeta; cbn [nonempty orb andb negb oz_truthy oz_get]; rewrite ?B, ?C; finish_parts.
+Qed.
+(* ---- URL.to_text ----------------------------------------------------------------------------------- *)
+Lemma starts2_eq (path : text) :
+  text_eqb (firstn 2 path) [47; 47] = match path with 47 :: 47 :: _ => true | _ => false end.
+Proof.
+  destruct path as [|a [|b r]]; try reflexivity.
+  - cbn. destruct a as [|pa]; [reflexivity|]. repeat (destruct pa as [pa|pa|]; try reflexivity).
+  - cbn [firstn text_eqb]. destruct (a =? 47) eqn:Ea.
+    + apply N.eqb_eq in Ea. subst a. destruct (b =? 47) eqn:Eb.
+      * apply N.eqb_eq in Eb. subst b. reflexivity.
+      * cbn. destruct b as [|pb]; [reflexivity|]. repeat (destruct pb as [pb|pb|]; try reflexivity; try discriminate).
+    + cbn. destruct a as [|pa]; [reflexivity|]. repeat (destruct pa as [pa|pa|]; try reflexivity; try discriminate).
+Qed.
+
+Lemma starts1_eq (path : text) :
+  text_eqb (firstn 1 path) [47] = match path with 47 :: _ => true | _ => false end.
+Proof.
+  destruct path as [|a r]; [reflexivity|]. cbn [firstn text_eqb]. destruct (a =? 47) eqn:Ea.
+  - apply N.eqb_eq in Ea. subst a. reflexivity.
+  - cbn. destruct a as [|pa]; [reflexivity|]. repeat (destruct pa as [pa|pa|]; try reflexivity; try discriminate).
+Qed.
+
+Lemma empty_or_slash_eq (path : text) :
+  existsb (text_eqb (firstn 1 path)) [[]; [47]] = match path with [] => true | 47 :: _ => true | _ => false end.
+Proof.
+  cbn [existsb]. rewrite starts1_eq, orb_false_r. destruct path as [|a r]; [reflexivity|]. reflexivity.
+Qed.
+
+Theorem src_to_text_eq u full :
+  o_idna_enc O (u_host u) = MOk (enc (u_host u)) ->
+  to_text T O full u = MOk (src_to_text T O enc u full).
+Proof.
+  intro ENC. unfold src_to_text, to_text. rewrite (src_get_authority_eq u full ENC). cbn [mbind].
+  rewrite src_query_to_text_eq, src_quote_fragment_part_eq.
+  rewrite (map_ext (fun p => src_quote_path_part T O p full) (quote T O full CPath)
+             (fun p => src_quote_path_part_eq p full)).
+  cbv zeta. unfold text in *.
+  generalize (u_scheme u); intro scheme.
+  match goal with |- context [nonempty (join [47] ?m)] => generalize (join [47] m); intro path end.
+  generalize (src_get_authority T O enc u full); intro authority.
+  generalize (query_to_text T O full (u_query u)); intro qs.
+  generalize (quote T O full CFrag (u_frag u)); intro fragment.
+  rewrite starts2_eq, starts1_eq, empty_or_slash_eq.
+  f_equal.
+  destruct (nonempty scheme); destruct (nonempty authority); destruct (nonempty path);
+    destruct (nonempty qs); destruct (nonempty fragment);
+    destruct (match path with 47 :: 47 :: _ => true | _ => false end);
+    destruct (match path with [] => true | 47 :: _ => true | _ => false end);
+    destruct (match path with 47 :: _ => true | _ => false end);
+    destruct (uses_netloc T u);
+    cbn [orb andb negb app concat]; rewrite ?app_nil_r, <- ?app_assoc; cbn [app]; rewrite ?app_nil_r, <- ?app_assoc; reflexivity.
+Qed.
 End SrcEq.
